@@ -477,7 +477,7 @@ def _ef_sections():
     sec["d2two"] = rnd.sample(two, 2400) if quick else two
     if not quick:
         # depth 3: a sampled depth-2 operand against every depth-1 operand, both orders, and unary on depth 2
-        s2 = rnd.sample(two, 60)
+        s2 = rnd.sample(two, 16)
         sec["d3"] = ef_grow(s2, raw=False, binary=[]) + ef_grow(s2, l1, raw=False, unary=[]) + ef_grow(l1, s2, raw=False, unary=[])
         # more leaves at depth 2: instance, rotated, constant 2 / -1
         lmore = [a, ["a", 0, 1], ["a", 1, -1], ["i", 0, 0], ["f", 0, 1], K(2), K(-1)]
@@ -585,6 +585,8 @@ def ef_decide(name, gi, trees, ctx):
             out["queries"] += 1
             if b1 and r1.status == "sat":
                 failing.append((t, w, m1, b1, d1))
+                if len(failing) >= 2:        # smallest two are enough for the report
+                    break
         except Exception as ex:
             print(f"exprfam bisect {symf.ef_show(t)}: {ex!r}"[:200], flush=True)
     if failing:
@@ -593,7 +595,7 @@ def ef_decide(name, gi, trees, ctx):
         payload = {"kind": "exprfam", "member": m1, "tree": symf.ef_show(t), "wrap": w, "queries": b1,
                    "post_keygen_polynomial": (d1["polys"]["gates"] or [d1["polys"]["trashcans"]])[0][:1500],
                    "prover_graph": d1["ev"]["graphs"], "failing_trees": [symf.ef_show(x[0]) for x in failing]}
-        detail = (f"{len(failing)}/{len(trees)} trees fail alone, smallest: E = {symf.ef_show(t)} (wrap {w}, {ctx['sel']} selector): the "
+        detail = (f"single trees of the group fail alone ({[symf.ef_show(x[0]) for x in failing]}), smallest: E = {symf.ef_show(t)} (wrap {w}, {ctx['sel']} selector): the "
                   f"verifier's claim differs from the committed polynomial for {b1}; prover graph {d1['ev']['graphs'][-1]['calculations']}")
     else:
         payload = {"kind": "exprfam", "member": member, "tree": "  ".join(shown), "wrap": ctx["wraps"], "queries": bad}
